@@ -329,6 +329,12 @@ class C04(Sim):
             if old and r.chance(0.25):
                 path = r.choice(old)  # overwrite a file written earlier: what was at the path before must not show through
             ev = {"c": "saver", "op": "save", "m": r.below(self._targets()), "fmt": fmt, "path": path}
+            st_ = getattr(self, "_steer", None)
+            if st_ is not None and st_[0] < self._targets() and r.chance(0.5):
+                # the object that was just written to a .mesh file is written again, to the attribute-carrying format
+                self._steer = None
+                ev["m"], ev["fmt"], ev["path"] = st_[0], st_[1], "f%d.%s" % (self.nfile, st_[1])
+                return ev
             je = getattr(self, "_just_edited", None)
             if je is not None and je < self._targets() and r.chance(0.7):
                 # the mesh edited last is saved next, preferably in the format it was loaded from
@@ -561,6 +567,12 @@ class C04(Sim):
             o = call(build)
             if not o.ok or o.value is None:
                 return "raw-extend-failed:" + o.brief()  # (what the file holds is judged by the load / xread of that file, not here)
+            try:
+                sn_ = self.snapshot(o.value)
+                RC.project("geogram_ascii", {"vertices": sn_["vertices"], "edges": sn_["edges"], "faces": sn_["faces"], "cells": sn_["cells"], "attributes": {}})
+            except ValueError as e_:
+                self.violation("loads-correctly" if info["origin"] == "plant" else "load-gives-back", "raw_extend", "wrong_value", "not-a-mesh",
+                               "%s/%s/raw" % (info["fmt"], info["origin"]), "the raw data loaded from %s does not describe a mesh: %s" % (ev["path"], str(e_)[:160]))
             self.loaded.append(o.value)
             self.loaded_fmt.append("geogram_ascii")  # steer the next save of it to the format that writes corners from the corner container
             self._just_edited = len(self.meshes) + len(self.loaded) - 1
@@ -650,6 +662,7 @@ class C04(Sim):
                     ex = {k_: v_ for k_, v_ in ex.items() if k_ != "edges_opt"}
                     ex["edges"] = [list(e) for e in seen["edges"]]
             self.files[ev["path"]] = {"fmt": fmt, "snap": snap, "expressed": ex, "origin": "save", "kinds": kinds}
+            self._steer = (ev["m"], "geogram_ascii") if (fmt == "mesh" and not ign and "geogram_ascii" in self.cfg["formats"]) else None
             self.seq.append("save:" + fmt)
             if fmt == "stl":
                 self.probes["stl"] += 1
